@@ -15,7 +15,7 @@ type HashValue struct {
 
 // Get hashes the sticky value.
 func (v *HashValue) Get(raw *url.URL) string {
-	return v.hash(raw.String())
+	return v.hash(normalized(raw))
 }
 
 // FindURL gets url from array that match the value.
